@@ -562,6 +562,23 @@ pub fn craft_sk(rng: &mut Prng, p: Params, valid: &[u8]) -> CraftedKey {
             }
         }
     }
+    if rng.chance(1, 8) {
+        // many reserved fields at once: a decoder that counts them (instead of stopping at the first)
+        // meets the limits of its counter at 255 / 256 / 257 and at 65535 / 65536 bits
+        let count = *rng.pick(&[2usize, 255, 256, 257, 511, 512, 513, 768]);
+        let count = count.min(p.n);
+        let which = rng.below(3);
+        let start = rng.usize_below(p.n - count + 1);
+        for i in start..start + count {
+            let (off, width) = match which {
+                0 => (8 + w * i, w),
+                1 => (8 + w * p.n + w * i, w),
+                _ => (8 + 2 * w * p.n + 8 * i, 8),
+            };
+            set_bits(&mut b, off, width, 1 << (width - 1));
+        }
+        return CraftedKey { bytes: b, style: "Z3-sk-reserved-many", detail: format!("poly {}: {} reserved fields from coefficient {}", which, count, start) };
+    }
     match rng.below(4) {
         0 | 1 => {
             // reserved pattern 100..0 in a random field of f, g or F
